@@ -659,6 +659,11 @@ def _install():
     PROPERTIES["C17"]["rules"].append(shared_spline)
     PROPERTIES["C20"]["rules"].append(shared_utils)
     PROPERTIES["C06"]["rules"].append(shared_made)
+    # the three splines that omit the box-scale term of their log-derivative are only ever called on square boxes
+    from .spline_rules import square_rule
+
+    if square_rule not in PROPERTIES["C01"]["rules"]:
+        PROPERTIES["C01"]["rules"].append(square_rule)
 
 
 _install()
